@@ -40,7 +40,7 @@ def hierarchy_family(shape, mcfg, super_style, ctor_style, with_dtor):
         has_sub_override = any(parents[d] == c and mcfg.get(d, "inherit") != "inherit" for d in classes) or any(
             parents.get(parents.get(d)) == c and mcfg.get(d, "inherit") != "inherit" and mcfg.get(parents[d], "inherit") == "inherit" for d in classes if parents.get(d))
         if c == "A":
-            body += " public function sfx() -> string { return \"\"; } public virtual function m() -> string { return \"A.m\" + this.sfx(); } public function n() -> string { return \"A.n:\" + this.m(); }"
+            body += " public function sfx() -> string { return \"\"; } public virtual function m() -> string { return \"A.m\" + this.sfx(); } public function n() -> string { return \"A.n:\" + this.m(); } public function nb() -> string { return \"A.nb:\" + m(); }"
         elif cfg == "override":
             body += " public virtual override function m() -> string { return \"%s.m\"; }" % c
         elif cfg == "override-super":
@@ -120,6 +120,8 @@ def hierarchy_programs(tier):
                             model.out.append(model.m(D))
                             body.append("echo(v.n());")
                             model.out.append("A.n:" + model.m(D))
+                            body.append("echo(v.nb());")          # a bare call inside the class is 'this.m()'
+                            model.out.append("A.nb:" + model.m(D))
                             if drop == "null":
                                 body.append("v = null;")
                                 model.destroy(D)
@@ -146,9 +148,17 @@ def hierarchy_programs(tier):
 
 
 # ---- overloads -----------------------------------------------------------------------------------------------------------------------
-PARAM_TYPES = ["int", "long", "float", "A", "B"]
-ARGS = {"int": "1", "long": "2L", "float": "1.5f", "A": "new A()", "B": "new B()", "C": "new C()", "A-holding-B": "ab", "B-holding-C": "bc", "null": "null"}
-ARG_STATIC = {"int": "int", "long": "long", "float": "float", "A": "A", "B": "B", "C": "C", "A-holding-B": "A", "B-holding-C": "B", "null": "null"}
+PARAM_TYPES = ["int", "long", "float", "A", "B", "boolean", "int[]", "float[]"]
+ARGS = {"int": "1", "long": "2L", "float": "1.5f", "A": "new A()", "B": "new B()", "C": "new C()", "A-holding-B": "ab", "B-holding-C": "bc", "null": "null",
+        "boolean": "true", "int[]": "ai", "float[]": "af",
+        # a B that reaches the call through a slot declared A other than a local variable: a method result, a field with an initialiser, a static
+        "A-from-method": "fac.mk()", "A-from-field-init": "hd.held", "A-from-static-init": "Sg.s", "long-from-int-var": "lv"}
+ARG_STATIC = {"int": "int", "long": "long", "float": "float", "A": "A", "B": "B", "C": "C", "A-holding-B": "A", "B-holding-C": "B", "null": "null",
+              "boolean": "boolean", "int[]": "int[]", "float[]": "float[]", "A-from-method": "A", "A-from-field-init": "A", "A-from-static-init": "A", "long-from-int-var": "long"}
+OV_SUPPORT = ("class Fac { public constructor() -> Fac = default; public function mk() -> A { return new B(); } }\n"
+              "class Hd { public A held = new B(); public constructor() -> Hd = default; }\n"
+              "static class Sg { public static A s = new B(); }\n")
+OV_DECL = "A ab = new B(); B bc = new C(); int[] ai = {1, 2}; float[] af = {1.5f}; Fac fac = new Fac(); Hd hd = new Hd(); long lv = 7; "
 DIST = {("A", "A"): 0, ("B", "B"): 0, ("C", "C"): 0, ("B", "A"): 1, ("C", "B"): 1, ("C", "A"): 2}
 
 
@@ -181,7 +191,7 @@ def resolve(overloads, arg_static):
 
 
 def overload_programs(tier):
-    base = "class A { public constructor() -> A = default; }\nclass B extends A { public constructor() -> B { super(); } }\nclass C extends B { public constructor() -> C { super(); } }\n"
+    base = "class A { public constructor() -> A = default; }\nclass B extends A { public constructor() -> B { super(); } }\nclass C extends B { public constructor() -> C { super(); } }\n" + OV_SUPPORT
     progs = []
     sizes = (1, 2, 3) if tier == "thorough" else (1, 2)
     for k in sizes:
@@ -191,7 +201,7 @@ def overload_programs(tier):
             for aname, aexpr in ARGS.items():
                 st = ARG_STATIC[aname]
                 r = resolve(ov, st)
-                decl = "A ab = new B(); B bc = new C(); O o = new O();"
+                decl = OV_DECL + "O o = new O();"
                 body = "%s echo(o.f(%s));" % (decl, aexpr)
                 # the same call after the holder variable was reassigned (the static type must still decide)
                 exp = ("reject",) if r in ("none", "ambiguous") else ("ok", ["f(%s)" % r])
@@ -219,14 +229,14 @@ def overload_programs(tier):
                     cls = "class O { public constructor() -> O = default; %s }\nclass O2 extends O { public constructor() -> O2 { super(); } %s }\n" % (om, dm)
                     for recv, visible in (("O2 o = new O2();", list(ov)), ("O o = new O2();", bp)):
                         for aname, aexpr in ARGS.items():
-                            if tier != "thorough" and aname in ("C", "B-holding-C", "float"):
+                            if tier != "thorough" and aname in ("C", "B-holding-C", "float", "int[]", "float[]", "A-from-field-init", "A-from-static-init"):
                                 continue
                             r = resolve(visible, ARG_STATIC[aname])
                             if r in ("none", "ambiguous"):
                                 exp = ("reject",)
                             else:
                                 exp = ("ok", ["%s.f(%s)" % ("O2" if (r in dp or r == override) else "O", r)])
-                            body = "A ab = new B(); B bc = new C(); %s echo(o.f(%s));" % (recv, aexpr)
+                            body = OV_DECL + "%s echo(o.f(%s));" % (recv, aexpr)
                             progs.append(("overload-split:%s/%s:%s:%s:%s" % ("+".join(bp), "+".join(dp), "ovr" if override else "plain", recv.split(" ")[0], aname),
                                           base + cls + "function main() -> void { %s }\n" % body, exp))
     return progs
@@ -306,6 +316,25 @@ def destructor_programs():
         ("dtor:frame-end-void", "plain(4); echo(\"end\");", ["in", "~R a4", "~R b8", "~R c4", "end"]),
     ]
     out += [(n, cls3 + "function main() -> void { %s }\n" % b, ("ok", e)) for n, b, e in cases3]
+    # a return that unwinds a nested block whose local has a destructor that itself calls a function / a method / allocates
+    cls4 = ("function helper() -> int { return 5; }\n"
+            "class Lc { public int id; public constructor(int id) -> Lc { this.id = id; return this; } public function me() -> int { return this.id; } "
+            "public destructor() -> void { int k = helper() + this.me(); Lc2 t = new Lc2(); echo(\"~Lc\" + this.id + \":\" + (k + t.v)); } }\n"
+            "class Lc2 { public int v = 1; public constructor() -> Lc2 = default; }\n"
+            "function g() -> int { if (true) { Lc tmp = new Lc(1); return 42; } return 0; }\n"
+            "function f() -> Lc { Lc res = new Lc(2); if (true) { Lc tmp = new Lc(3); return res; } return null; }\n"
+            "function w() -> int { int i = 0; while (i < 3) { Lc tmp = new Lc(10 + i); i = i + 1; if (i == 2) { return i * 7; } } return 0; }\n")
+    cases4 = [
+        ("dtor:return-through-block:value", "echo(g() + 1);", ["~Lc1:7", "43"]),
+        ("dtor:return-through-block:object", "Lc r = f(); echo(r.id); r = null; echo(\"end\");", ["~Lc3:9", "2", "~Lc2:8", "end"]),
+        ("dtor:return-through-loop:value", "echo(w());", ["~Lc10:16", "~Lc11:17", "14"]),
+    ]
+    out += [(n, cls4 + "function main() -> void { %s }\n" % b, ("ok", e)) for n, b, e in cases4]
+    # static initialisers that call a top-level function / run a constructor that calls one
+    cls5 = ("function compute() -> int { return 42; }\n"
+            "class Reg { public int v; public constructor() -> Reg { this.v = compute(); return this; } }\n"
+            "class Cfg { public static int direct = compute(); public static Reg viaCtor = new Reg(); public int inst = compute(); public constructor() -> Cfg { return this; } }\n")
+    out.append(("static:initialiser-calls-function", cls5 + "function main() -> void { echo(Cfg.direct); echo(Cfg.viaCtor.v); Cfg c = new Cfg(); echo(c.inst); }\n", ("ok", ["42", "42", "42"])))
     return out
 
 
